@@ -535,6 +535,15 @@ func checkStatsConc(x *Exec, r *Rig, p concParams, recs [][]opRec) {
 				} else {
 					misses++
 				}
+			case "bulk":
+				// one lookup per distinct key (hit or miss is not observable per key under concurrency)
+				seen := map[int]bool{}
+				for _, k := range keyList(f[1]) {
+					if !seen[k] {
+						seen[k] = true
+						misses++
+					}
+				}
 			case "cia", "ciac":
 				if res.Calls == 0 {
 					hits++ // returned the existing value
